@@ -30,6 +30,7 @@ import (
 	"testing"
 	"time"
 
+	roottel "golang.org/x/telemetry"
 	pubcounter "golang.org/x/telemetry/counter"
 	"golang.org/x/telemetry/internal/configtest"
 	"golang.org/x/telemetry/internal/counter"
@@ -87,11 +88,11 @@ func countFileName(p string, b int) string {
 
 func writeCountFile(dir string, f fileRec) error {
 	meta := rt.V1Meta(vm.At(f.B, 0).Format(time.RFC3339), vm.At(f.E, 0).Format(time.RFC3339), "example.com/"+f.P, progVer, goVers, runtime.GOOS, runtime.GOARCH)
-	n := f.N
-	if n <= 0 {
-		n = 1
+	entries := []rt.V1Entry{{Name: "c02", Value: uint64(f.N)}, {Name: "other/counter", Value: 7}}
+	if f.N <= 0 {
+		entries = nil // a valid count file that holds no counter at all
 	}
-	data, err := rt.WriteV1(meta, []rt.V1Entry{{Name: "c02", Value: uint64(n)}, {Name: "other/counter", Value: 7}})
+	data, err := rt.WriteV1(meta, entries)
 	if err != nil {
 		return err
 	}
@@ -107,12 +108,46 @@ func reportJSON(wk int, x float64) []byte {
 }
 
 // materialize builds a telemetry directory for an abstract state.
-func materialize(dir string, s *state, w int, variant int) error {
+func materialize(dir string, s *state, w int, variant int, bare, nodir, extras bool) error {
+	if nodir {
+		return nil
+	}
+	if bare {
+		if err := os.MkdirAll(dir, 0777); err != nil {
+			return err
+		}
+		if err := vm.WriteMode(dir, s.ModeFile, variant); err != nil {
+			return err
+		}
+		if len(s.Uploaded) > 0 {
+			os.MkdirAll(filepath.Join(dir, "upload"), 0777)
+		}
+		for _, wk := range s.Uploaded {
+			if err := os.WriteFile(filepath.Join(dir, "upload", vm.DateOf(wk)+".json"), reportJSON(wk, 0.25), 0666); err != nil {
+				return err
+			}
+		}
+		return nil
+	}
 	if err := os.MkdirAll(filepath.Join(dir, "local"), 0777); err != nil {
 		return err
 	}
 	if err := os.WriteFile(filepath.Join(dir, "local", "weekends"), []byte(fmt.Sprintf("%d\n", w)), 0666); err != nil {
 		return err
+	}
+	if extras {
+		// things the library has no business with: they must be ignored, and in mode off left exactly as they are
+		os.MkdirAll(filepath.Join(dir, "local", "sub"), 0777)
+		os.MkdirAll(filepath.Join(dir, "debug"), 0777)
+		os.MkdirAll(filepath.Join(dir, "upload"), 0777)
+		for name, data := range map[string]string{
+			"local/notes.txt": "notes\n", "local/prog-2020-01-01.v2.count": "v2", "local/garbage-2020-01-01.v1.count": "not a counter file at all\n",
+			"local/zero-2020-01-01.v1.count": "", "local/sub/2020-01-06.json": "{}", "local/x.json.tmp": "{", "upload/README": "readme\n",
+			"upload/2020-01-06.json.bak": "{}", "upload.token": "", "debug/old.log": "log\n"} {
+			if err := os.WriteFile(filepath.Join(dir, filepath.FromSlash(name)), []byte(data), 0666); err != nil {
+				return err
+			}
+		}
 	}
 	if err := vm.WriteMode(dir, s.ModeFile, variant); err != nil {
 		return err
@@ -203,6 +238,8 @@ func project(dir string, testProg string) (files []fileRec, local, ready, upload
 	for _, e := range root {
 		switch e.Name() {
 		case "mode", "local", "upload":
+		case "debug":
+			// the uploader may write a log here when the directory exists; not a counter file or report
 		default:
 			extras = append(extras, e.Name())
 		}
@@ -394,7 +431,8 @@ func (e *env) proxyEnv(rate int) []string {
 type action struct {
 	Op string `json:"op"`
 	A  string `json:"a"`
-	P  string `json:"p"` // set: the padding around the word (see ModeFile.tla, Pads)
+	P  string `json:"p"`  // set: the padding around the word (see ModeFile.tla, Pads)
+	Tz string `json:"tz"` // set: zone the as-of instant is given in ("" UTC, east, west)
 	N1 int    `json:"n1"`
 	N2 int    `json:"n2"`
 	Ok bool   `json:"ok"`
@@ -434,14 +472,19 @@ type scenario struct {
 	W       int    `json:"w"`
 	Shift   int    `json:"shift"` // days (a multiple of 7) added to every day number
 	Variant int    `json:"variant"`
-	Child   bool   `json:"child"` // collector c2 is a re-executed child process using the public API
+	Child   bool   `json:"child"`  // collector c2 is a re-executed child process using the public API
+	Bare    bool   `json:"bare"`   // no local/ directory (and no week-end file) to begin with
+	NoDir   bool   `json:"nodir"`  // the telemetry directory itself does not exist to begin with
+	Extras  bool   `json:"extras"` // foreign, corrupt and empty files, a sub-directory and a debug directory lie around
 	Init    state  `json:"init"`
 	Steps   []step `json:"steps"`
 }
 
 var collectMu sync.Mutex
 
+// childIn: API 0 = counter.Open, 1 = counter.OpenAndRotate, 2 = counter.OpenDir(dir) with no default directory set before.
 type childIn struct {
+	API int    `json:"api"`
 	Dir string `json:"dir"`
 	Now int64  `json:"now"`
 }
@@ -457,16 +500,25 @@ func TestVerifC02Child(t *testing.T) {
 	if err := json.Unmarshal([]byte(arg), &in); err != nil {
 		t.Fatal(err)
 	}
-	telemetry.Default = telemetry.NewDir(in.Dir)
 	counter.CounterTime = func() time.Time { return time.Unix(in.Now, 0).UTC() }
-	pubcounter.Open()
+	switch in.API {
+	case 1:
+		telemetry.Default = telemetry.NewDir(in.Dir)
+		pubcounter.OpenAndRotate()
+	case 2:
+		telemetry.Default = telemetry.Dir{}
+		pubcounter.OpenDir(in.Dir)
+	default:
+		telemetry.Default = telemetry.NewDir(in.Dir)
+		pubcounter.Open()
+	}
 	pubcounter.Inc("c02")
 	pubcounter.NewStack("c02/stack", 4).Inc()
 	pubcounter.New("c02/other").Add(3)
 }
 
-func collectChild(dir string, now time.Time) error {
-	arg, _ := json.Marshal(childIn{Dir: dir, Now: now.Unix()})
+func collectChild(dir string, now time.Time, api int) error {
+	arg, _ := json.Marshal(childIn{Dir: dir, Now: now.Unix(), API: api})
 	cmd := exec.Command(os.Args[0], "-test.run=^TestVerifC02Child$", "-test.count=1")
 	cmd.Env = append(os.Environ(), "VERIF_C02_CHILD="+string(arg), "VERIF_OUT=", "VERIF_IN=")
 	out, err := cmd.CombinedOutput()
@@ -499,6 +551,23 @@ func collectInProcess(dir, prog string, now time.Time) (errText string) {
 	sc.Inc()
 	f.Close()
 	return ""
+}
+
+// pubSetMode sets the mode through the public package (which works on the
+// default directory and today's date) and reads it back the same way.
+func pubSetMode(dir, mode string) error {
+	collectMu.Lock()
+	defer collectMu.Unlock()
+	old := telemetry.Default
+	defer func() { telemetry.Default = old }()
+	telemetry.Default = telemetry.NewDir(dir)
+	err := roottel.SetMode(mode)
+	if err == nil {
+		if got, want := roottel.Mode(), strings.TrimSpace(mode); got != want {
+			return fmt.Errorf("telemetry.Mode() = %q right after telemetry.SetMode(%q)", got, mode)
+		}
+	}
+	return err
 }
 
 // longProc is ONE long-running counting process: a private counter file that
@@ -614,7 +683,7 @@ func (e *env) runScenario(sc *scenario) {
 		return s
 	}
 	ini := shiftState(sc.Init)
-	if err := materialize(dir, &ini, sc.W, sc.Variant); err != nil {
+	if err := materialize(dir, &ini, sc.W, sc.Variant, sc.Bare, sc.NoDir, sc.Extras); err != nil {
 		rt.Out(rt.M{"kind": "infra", "id": sc.ID, "err": err.Error()})
 		return
 	}
@@ -702,7 +771,7 @@ func (e *env) runScenario(sc *scenario) {
 			}
 		case "collect":
 			if a.A == "c2" && sc.Child {
-				if err := collectChild(dir, vm.At(day, tod)); err != nil {
+				if err := collectChild(dir, vm.At(day, tod), (sc.Variant+i)%3); err != nil {
 					errText = err.Error()
 				}
 			} else {
@@ -714,7 +783,34 @@ func (e *env) runScenario(sc *scenario) {
 		case "pinc":
 			errText = lp.inc(dir, lpProg, vm.At(day, tod))
 		case "set":
-			err := telemetry.NewDir(dir).SetModeAsOf(padded(a.A, a.P), vm.At(a.N1+sh, (sc.Variant*7919+i*131)%86400))
+			var err error
+			if a.N2 == 1 {
+				// the public API: telemetry.SetMode records today's (real) date
+				d0 := int(time.Now().UTC().Unix() / 86400)
+				err = pubSetMode(dir, padded(a.A, a.P))
+				d1 := int(time.Now().UTC().Unix() / 86400)
+				a.N1, a.N2 = d1-sh, 0
+				if d0 != d1 {
+					a.Tz = "east" // midnight passed: either date
+				}
+			} else {
+				// the instant: a boundary of the UTC day or any second of it, given in UTC or in a zone far from it
+				tod := (sc.Variant*7919 + i*131) % 86400
+				switch (sc.Variant + i) % 4 {
+				case 0:
+					tod = 0
+				case 1:
+					tod = 86399
+				}
+				when := vm.At(a.N1+sh, tod)
+				switch a.Tz {
+				case "east":
+					when = when.In(time.FixedZone("east", 14*3600))
+				case "west":
+					when = when.In(time.FixedZone("west", -12*3600))
+				}
+				err = telemetry.NewDir(dir).SetModeAsOf(padded(a.A, a.P), when)
+			}
 			okGot = err == nil
 			if err != nil {
 				errText = err.Error()
@@ -761,6 +857,9 @@ func modeText(dir string) string {
 	data, err := os.ReadFile(filepath.Join(dir, "mode"))
 	if err != nil {
 		return "<unreadable>"
+	}
+	if len(data) > 120 {
+		return strconv.QuoteToASCII(string(data[:60])) + fmt.Sprintf("...(%d bytes)...", len(data)) + strconv.QuoteToASCII(string(data[len(data)-40:]))
 	}
 	return strconv.QuoteToASCII(string(data))
 }
@@ -883,8 +982,17 @@ func randomScenarios(n int, idBase int) []scenario {
 				end = e + 7
 			}
 			b := end - 1 - rng.Intn(7)
-			st.Files = append(st.Files, fileRec{P: progs[j], B: b, E: end, N: 1 + rng.Intn(5)})
+			n := 1 + rng.Intn(5)
+			if rng.Intn(6) == 0 {
+				n = 0 // a valid count file without any counter
+			}
+			st.Files = append(st.Files, fileRec{P: progs[j], B: b, E: end, N: n})
+			if rng.Intn(5) == 0 && b+1 < end {
+				// the same program again, from a later day of the same week (a file rotated in mid-week)
+				st.Files = append(st.Files, fileRec{P: progs[j], B: b + 1 + rng.Intn(end-b-1), E: end, N: rng.Intn(3)})
+			}
 		}
+		sc.Extras = rng.Intn(4) == 0
 		pick := func(c []int) []int {
 			r := []int{}
 			for _, v := range c {
@@ -924,7 +1032,17 @@ func randomScenarios(n int, idBase int) []scenario {
 				pad = []string{"lead", "trail", "tab", "nl", "crlf", "both"}[rng.Intn(6)]
 			}
 			asof := base + rng.Intn(60) - 20
-			sc.Steps = []step{{Act: action{Op: "set", A: m, P: pad, N1: asof, Ok: valid}}}
+			switch rng.Intn(12) {
+			case 0:
+				asof = 1 + rng.Intn(300) // the seventies
+			case 1:
+				asof = 80000 + rng.Intn(4000) // around 2190-2200
+			}
+			set := action{Op: "set", A: m, P: pad, N1: asof, Ok: valid, Tz: []string{"", "", "east", "west"}[rng.Intn(4)]}
+			if rng.Intn(5) == 0 {
+				set.N2, set.Tz = 1, "" // through the public package: today's date
+			}
+			sc.Steps = []step{{Act: set}}
 			if mf.K == "unreadable" && valid {
 				sc.Steps = nil
 			} else if valid {
